@@ -34,7 +34,8 @@ _COMMON = ('Every block is placed and routed twice, once per pinned set-iteratio
            'pins): fan-out, feedback through Reg, combinational cycles, self-loops, forward edges spanning several columns, '
            'one wire on two pins of one instance, an out-port fed straight by an in-port (port pair sharing one wire) are all '
            'included; "alias" variants bind the two in-ports of the wrapper to one wire (what Add(a, a, r) looks like from '
-           'inside). A netlist is counted non-trivial when its drawing needs at least one pass-through or feedback marker. ')
+           'inside); "samename" variants (every n <= 2 shape with i >= 1; quick: o <= 1) give internal wires the short names of the outer wires '
+           'bound to the in-ports (different wires of different scopes may share a short name). A netlist is counted non-trivial when its drawing needs at least one pass-through or feedback marker. ')
 RULE = {
     'quick': _COMMON +
              'Catalogue: every configuration of mc.catalog.configs("quick") (library blocks over the C07/C08/C09/C14 grids plus '
@@ -102,6 +103,8 @@ def build_netlist(nl):
     alias: the two in-ports of the wrapper are bound to one and the same wire"""
     types, i, o, assign = nl['types'], nl['i'], nl['o'], nl['assign']
     alias = bool(nl.get('alias'))
+    same = bool(nl.get('samename'))     # internal wires carry the short names of the outer wires bound to the in-ports
+    nsame = 0
     src = schem.sources(types, i)
     snk = schem.sinks(types, o)
     hw = py4hw.HWSystem()
@@ -113,7 +116,11 @@ def build_netlist(nl):
             w = wires[0] if (alias and s[1] == 1) else hw.wire('i%d' % s[1])
         else:
             # a wire that leaves through an out-port is created outside, the others are internal
-            w = (hw if n in to_out else wr).wire('n%d_%d' % (s[1], s[2]))
+            nm = 'n%d_%d' % (s[1], s[2])
+            if same and n not in to_out and nsame < i:
+                nm = 'i%d' % (i - 1 - nsame)        # a different wire of another scope with the same short name
+                nsame += 1
+            w = (hw if n in to_out else wr).wire(nm)
         wires.append(w)
     for k in range(i):
         wr.addIn('i%d' % k, wires[k])
@@ -201,6 +208,8 @@ def netlist_shapes(tier):
             res.append((''.join(seq), i, o, 0))
             if i == 2 and len(seq) <= 2 and (o <= 1 or tier != 'quick'):
                 res.append((''.join(seq), i, o, 1))         # both in-ports on one wire
+            if i >= 1 and len(seq) <= 2 and (o <= 1 or tier != 'quick'):
+                res.append((''.join(seq), i, o, 2))         # internal wires named like the outer wires on the in-ports
     return res
 
 
@@ -445,8 +454,10 @@ def _run_netlists(desc, acc):
     for n, (seq, i, o, alias, idx) in enumerate(todo):
         types = [schem.LETTER[x] for x in seq]
         nl = {'types': types, 'i': i, 'o': o, 'assign': schem.assignment(types, i, o, idx)}
-        if alias:
+        if alias == 1:
             nl['alias'] = 1
+        elif alias == 2:
+            nl['samename'] = 1
         hw, wr = build_netlist(nl)
         wires, problems = schem.truth(wr)
         if problems:
